@@ -27,7 +27,7 @@ type GenOpts struct {
 var names = []string{"a", "b", "c", "d", "e", "f", "g", "h"}
 var vvals = []string{"one", "two"}
 var pairvals = []string{"one+two", "two+one", "one+one"}
-var mats = [][][]string{{{"1", "2"}, {"x", "y"}}, {{"p"}, {"q", "r"}}, {{"a", "b"}, {"c"}, {"d", "e"}}, {{"1", "2", "3"}}}
+var mats = [][][]string{{{"1", "2"}, {"x", "y"}}, {{"p"}, {"q", "r"}}, {{"a", "b"}, {"c"}, {"d", "e"}}, {{"1", "2", "3"}}, {{"a"}, {"b"}, {"c"}, {"1", "2"}}, {{"p", "q"}, {"r"}, {"s"}, {"t"}, {"u", "v"}}}
 var items = [][]string{{"one", "two"}, {"two", "one"}, {"x", "y"}, {"one"}, {"x", "one", "two"}}
 
 func pick[T any](r *rand.Rand, xs []T) T { return xs[r.Intn(len(xs))] }
@@ -389,6 +389,10 @@ func Core() []*Program {
 	add(mk("matrix", 1, []string{"a", "b"}, map[string]*Task{
 		"a": {Deps: []CallSite{{Task: "b", Mat: [][]string{{"p"}, {"q", "r"}}}},
 			Cmds: []Cmd{{K: "sh", Mat: [][]string{{"1", "2"}, {"x", "y"}}}, {K: "call", CS: &CallSite{Task: "b", Mat: [][]string{{"a", "b"}, {"c"}, {"d", "e"}}}}, sh(0)}},
+		"b": {Cmds: []Cmd{sh(0)}},
+	}))
+	add(mk("matrix-wide", 0, []string{"a", "b"}, map[string]*Task{
+		"a": {Cmds: []Cmd{{K: "sh", Mat: [][]string{{"a"}, {"b"}, {"c"}, {"1", "2"}}}, {K: "call", CS: &CallSite{Task: "b", Mat: [][]string{{"p", "q"}, {"r"}, {"s"}, {"t"}, {"u", "v"}}}}, sh(0)}},
 		"b": {Cmds: []Cmd{sh(0)}},
 	}))
 	// guards in every position
